@@ -381,6 +381,27 @@ def rule_scan_loops(ctx: Ctx, rule: str, which: set[str] | None = None) -> None:
                 n_r += 1
                 if e[3].get(er) != 0:
                     bad_r.append(f'after a POSIX class the pending range end is {_tag(e[3].get(er))[:40]}, not 0')
+    # ... and so does a range check: the character that completed (or failed to complete) a range cannot end another one
+    bad_c2 = []
+    n_c2 = 0
+    for p in rows:
+        focus(p)
+        rc = [e for e in p.of('call') if e[1] == f'{WP}:WcParse._sequence_range_check']
+        if not rc:
+            continue
+        ers = {k[len('loop@while:'):] for k in p.decisions if k.startswith('loop@while:') and 'i.index' not in k and k.count(':') == 1}
+        for e in p.of('iterend'):
+            if e[2] != 'next':
+                continue
+            # the variable that held the pending range end: the loop variable whose truth guarded the check
+            for er in ers:
+                if p.decisions.get(f'loop@while:{er}') is True and er in e[3]:
+                    n_c2 += 1
+                    if e[3][er] != 0:
+                        bad_c2.append(f'after the range check on {_char(p, scan)!r} the pending range end is {_tag(e[3][er])[:40]}, not 0')
+    emit(f'{WP}:WcParse._sequence/range-end-cleared-by-check', n_c2 >= 2 and not bad_c2, site,
+         'the iteration that ran the range check leaves no range end pending', f'{n_c2} rows agree' if n_c2 >= 2 and not bad_c2 else (sorted(set(bad_c2))[0] if bad_c2 else f'{n_c2} rows'),
+         "fnmatch('!', '[+--!]') must be True: after the range `+--` the `!` is an ordinary character")
     emit(f'{WP}:WcParse._sequence/range-end-cleared-by-posix', n_r >= 1 and not bad_r, site,
          'the iteration that consumed a POSIX class leaves no range end pending (a class cannot be a range end point)',
          f'{n_r} rows agree' if n_r and not bad_r else (sorted(set(bad_r))[0] if bad_r else 'no row consumes a POSIX class'),
